@@ -40,6 +40,11 @@ func stateAnnotation(s *Scanner, c byte) *jerr.JApiError {
 func stateMultilineAnnotationTextStart(s *Scanner, c byte) *jerr.JApiError {
 	s.foundAt(s.curIndex, AnnotationBegin)
 	s.step = stateMultilineAnnotation
+	if c == AnnotationDelimiterPart {
+		// "/*/": the asterisk before this slash opens the annotation, it can't
+		// close it as well.
+		return nil
+	}
 	return stateMultilineAnnotation(s, c)
 }
 
